@@ -1080,6 +1080,17 @@ static int _GD_Change(DIRFILE *D, const char *field_code, const gd_entry_t *N,
     if (E->field_type == GD_LINTERP_ENTRY && flags)
       _GD_ReleaseDir(D, Qe.u.linterp.table_dirfd);
 
+    if ((Q.flags ^ E->flags) & GD_EN_HIDDEN) {
+      /* which lists the field appears in has changed */
+      if (E->e->n_meta == -1) {
+        E->e->p.parent->e->fl.value_list_validity = 0;
+        E->e->p.parent->e->fl.entry_list_validity = 0;
+      } else {
+        D->fl.value_list_validity = 0;
+        D->fl.entry_list_validity = 0;
+      }
+    }
+
     memcpy(E->e, &Qe, sizeof(struct gd_private_entry_));
     Q.e = E->e;
     memcpy(E, &Q, sizeof(gd_entry_t));
